@@ -1145,6 +1145,20 @@ pub fn gen(stream: &str, tier: &str, seed: u64, out: &mut dyn Write) -> bool {
                 let b = enc(&[Val::Struct(vec![(1, payload(len, 5)), (2, Val::I16(9))]), Val::I8(3)], &None);
                 let _ = writeln!(out, "ur {} (read struct) (read i8)", hex(&b));
             }
+            // nesting of a skipped value around the checked skipper's budget (64 levels): chains of directly nested structs / lists
+            // with three innermost shapes; whatever the checked skipper accepts the unchecked one must skip, to the same position
+            for depth in [1usize, 2, 3, 61, 62, 63, 64, 65, 66] {
+                for inner in [Val::Struct(vec![]), Val::Struct(vec![(1, Val::Bin(b"s".to_vec()))]), Val::Struct(vec![(1, Val::I32(7))])] {
+                    let mut v = inner.clone();
+                    for _ in 1..depth { v = Val::Struct(vec![(1, v)]); }
+                    let b = enc(&[v, Val::I8(7)], &None);
+                    let _ = writeln!(out, "ur {} (skip struct) (read i8)", hex(&b));
+                    let mut v = inner.clone();
+                    for i in 1..depth { v = if i % 2 == 0 { Val::Struct(vec![(2, v)]) } else { Val::List(v.tt(), vec![v]) }; }
+                    let b = enc(&[v.clone(), Val::I8(7)], &None);
+                    let _ = writeln!(out, "ur {} (skip {}) (read i8)", hex(&b), v.tt().name());
+                }
+            }
             for _ in 0..n(220, 6000) {
                 let k = 1 + r.below(3) as usize;
                 let vals: Vec<Val> = (0..k).map(|_| gen::gen_any(&mut r, 4)).collect();
